@@ -1,5 +1,6 @@
 import Driver.Util
 import CirqVerif.Model.C05
+import CirqVerif.Model.C05Concat
 namespace Driver.C05
 open Lean Driver CirqVerif.C05
 
@@ -154,6 +155,12 @@ def handle (op : String) (j : Json) : R Json := do
   | "history" => return jList id (← runHistory (← listF pure j "calls"))
   | "spec_insert" => specInsert j
   | "spec_place" => specPlace j
+  | "concat" =>
+    let cs ← listF pCircuit j "circuits"
+    let a ← match (← strF j "align") with
+      | "left" => pure Align.left | "right" => pure Align.right | "first" => pure Align.first
+      | x => throw s!"bad align {x}"
+    return jMoments (concatRagged a cs)
   | "wf" => return jBool (circuitWF (← pCircuit (← field j "circuit")))
   | _ => throw s!"unknown op {op}"
 
